@@ -95,6 +95,36 @@ func c15(r *Report) {
 	r.Decline("content-encoding handling, large bodies, that the snapshot equals the original beyond its termination (C15.R5)")
 
 	r.Guard("C15.R1", "whoever consumes a message body puts the same bytes back", func() {
+		// trailers exist only once the body has been read to its end (net/http fills
+		// Request.Trailer / Response.Trailer at EOF, and creates the map there when the
+		// trailer was not announced): every read of the message's Trailer field in a
+		// snapshot comes after the body was drained
+		for _, f := range w.Funcs("messageview") {
+			g := G(f)
+			var drains []ssa.Instruction
+			for _, c := range plainCalls(f, "io/ioutil.ReadAll", "io.ReadAll") {
+				if anyIn(w.backSlice(c.Call.Args[0], flowOpt{}), func(v ssa.Value) bool { return msgFieldAddr(v, "Body") != nil }) {
+					drains = append(drains, c)
+				}
+			}
+			if len(drains) == 0 {
+				continue
+			}
+			for _, in := range instrs(f) {
+				ld, ok := in.(*ssa.UnOp)
+				if !ok || ld.Op != token.MUL || msgFieldAddr(ld.X, "Trailer") == nil {
+					continue
+				}
+				after := false
+				for _, d := range drains {
+					if g.Before(d, ld) {
+						after = true
+					}
+				}
+				r.Decide("path", fmt.Sprintf("%s: the trailer is looked at after the body has been read", fnName(f)), after, "the load of Trailer is dominated by the ReadAll of the body", "the message's Trailer is read before its body has been consumed: trailer fields that were not announced in a Trailer header do not exist yet and are missing from the snapshot", ld.Pos())
+			}
+		}
+
 		// any other way of draining a message body is not an accepted idiom
 		for _, f := range w.Funcs(loggerPkgs...) {
 			for _, ci := range calls(f) {
